@@ -351,4 +351,23 @@ def extendKey (e : Env) (keyStr channelName connId : Bytes) (access : UInt8) (ex
       | .err x => .err x
       | .panic w => .panic w
 
+/-! ## key banning (internal/service/keyban) -/
+
+/-- `keyban.OnRequest` on the set of currently banned key strings: the new set and the status.
+The secret must decrypt to an unexpired master key, the target must decrypt to a key of the
+same contract; `Contains` then `Notify` only when the state actually changes. -/
+def keyban (e : Env) (secret target : Bytes) (want : Bool) : List Bytes × Nat :=
+  match e.decrypt secret with
+  | none => (e.banned, 401)
+  | some sk =>
+      if sk.isExpired e.now || !sk.isMaster then (e.banned, 401) else
+      match e.decrypt target with
+      | none => (e.banned, 401)
+      | some tk =>
+          if tk.contract != sk.contract then (e.banned, 401) else
+          let has := e.banned.contains target
+          if want && !has then (target :: e.banned, 200)
+          else if !want && has then (e.banned.filter (· != target), 200)
+          else (e.banned, 200)
+
 end Emitter.Security
